@@ -1,4 +1,5 @@
 """C09 — XL-BOMD propagation: fixed point, published recurrence + buffer layout (all k, all phases, restart), linear stability, shadow energy."""
+import os
 import types
 from fractions import Fraction
 
@@ -556,6 +557,23 @@ def replay_fermi_padding():
     return worst > 1e-6
 
 
+def replay_fermi_entropy():
+    """float64, real Fermi_Q at 40000 K on a 4-orbital model: returned entropy vs -kB sum f ln f + (1-f) ln(1-f)"""
+    import math
+    from seqm.seqm_functions.fermi_q import Fermi_Q
+
+    g = torch.Generator().manual_seed(2)
+    H = torch.zeros(1, 4, 4, dtype=torch.float64)
+    A = torch.rand(4, 4, generator=g, dtype=torch.float64) - 0.5
+    H[0] = A + A.T
+    kB = 8.61739e-5
+    out = Fermi_Q(H, 40000.0, torch.tensor([2]), torch.tensor([1]), torch.tensor([0]), kB, 0)
+    f = out[4][0]
+    want = -kB * sum(x * math.log(x) + (1 - x) * math.log(1 - x) for x in f.tolist() if 1e-14 < x < 1 - 1e-14)
+    print("replay Fermi_Q entropy: returned %.6e, -kB sum f ln f + (1-f) ln(1-f) = %.6e" % (out[1][0].item(), want))
+    return abs(out[1][0].item() - want) > 1e-12
+
+
 class _StopFermi(Exception):
     pass
 
@@ -592,8 +610,25 @@ def ob_e(ob):
                 out = FQ.Fermi_Q(torch.zeros(2, 8, 8, dtype=torch.float64), 40000.0, torch.tensor([2, 1]), torch.tensor([1, 0]), torch.tensor([0, 2]), 8.61739e-5, 0)
         except _StopFermi:
             return None
-        Fe = out[4]
-        return (Fe.a.copy() if isinstance(Fe, SymTensor) else S.to_obj(Fe), calls[0])
+        Fe, Sent = out[4], out[1]
+        Fe = Fe.a.copy() if isinstance(Fe, SymTensor) else S.to_obj(Fe)
+        Sent = Sent.a.copy() if isinstance(Sent, SymTensor) else S.to_obj(Sent)
+        # the entropy specification is built inside the same execution so that it shares the registry of ln applications:
+        # -kB sum_k [f ln f + (1-f) ln(1-f)] over the fractionally occupied physical orbitals (per spin)
+        kB_, eps_ = S.rv(8.61739e-5), S.rv(1e-14)
+        spec = []
+        for b in range(2):
+            tot = z3.RealVal(0)
+            for k in range(4):
+                f = Fe[b, k]
+                inside = z3.And(f > eps_, 1 - f > eps_)
+                p_ = z3.If(inside, f, z3.RealVal("1/2"))
+                term = -kB_ * (p_ * S.e_log(p_) + (1 - p_) * S.e_log(1 - p_))
+                tot = tot + z3.If(inside, term, z3.RealVal(0))
+            spec.append(tot)
+        logs = [(v_, x_) for (fn_, _), (v_, x_) in S.ST.exps.items() if fn_ == "log"]
+        congr = [z3.Implies(logs[i][1] == logs[j][1], logs[i][0] == logs[j][0]) for i in range(len(logs)) for j in range(i + 1, len(logs))]
+        return (Fe, calls[0], Sent, spec, congr)
 
     rng = [z3.And(z3.Real("f%d_%d_%d" % (c, b, k)) > 0, z3.Real("f%d_%d_%d" % (c, b, k)) < 1) for c in range(1, nev + 1) for b in range(2) for k in range(4)]
     try:
@@ -607,8 +642,20 @@ def ob_e(ob):
     tol = S.rv(1e-9)  # the float the code compares with
     nocc, norb = [2, 1], [4, 2]
     absz = lambda e: z3.If(e >= 0, e, -e)
-    for pc, side, (Fe, ncalls) in exits:
+    for pc, side, (Fe, ncalls, Sent, spec, congr) in exits:
         base = rng + list(pc) + list(side)
+        for b in range(2):
+            tot = spec[b]
+            lab = "e:exit after %d evaluation(s), molecule %d: entropy is -kB sum f ln f + (1-f) ln(1-f) (per spin)" % (ncalls, b)
+            v, m = smt.prove(Sent.reshape(-1)[b] == tot, base + congr, lab, "nra", 60)
+            if v == "sat" and os.environ.get("VERIF_DEBUG"):
+                print("DEBUG entropy: code", m.eval(Sent.reshape(-1)[b], model_completion=True), "spec", m.eval(tot, model_completion=True), "ncalls", ncalls, [str(z3.simplify(x))[:60] for x in Fe[b]])
+            if v == "sat":
+                if replay_fermi_entropy():
+                    ob.violation("Fermi_Q: the electronic entropy returned is not -kB sum [f ln f + (1-f) ln(1-f)] per spin: its consumer applies the spin factor 2 itself, so the -T S term of the shadow free energy is miscounted at elevated electronic temperature", {"module": "harness.C09", "func": "replay_fermi_entropy", "args": {}})
+                    return
+                raise HarnessError("entropy counterexample did not reproduce (%s)" % lab)
+            ob.verdict(v, lab)
         for b in range(2):
             claims = [("sum of physical occupations = Nocc", absz(sum(Fe[b, k] for k in range(norb[b])) - nocc[b]) <= tol)]
             claims += [("padded slot %d empty" % k, Fe[b, k] == 0) for k in range(norb[b], 4)]
